@@ -8,11 +8,17 @@ func unitDispatch(name string, args []string, out *bufio.Writer) bool {
 	case "unit-sketch":
 		unitSketch(args, out)
 		return true
+	case "conc-policy":
+		concPolicy(args, out)
+		return true
 	case "conc-mpsc":
 		concMpsc(args, out)
 		return true
 	case "conc-drain":
 		concDrain(args, out)
+		return true
+	case "unit-policy":
+		unitPolicy(args, out)
 		return true
 	case "unit-mpsc":
 		unitMpsc(args, out)
